@@ -28,6 +28,14 @@ Anchors (all under `liquid/`), mirrored **as written**:
   (`[with|for] value [as alias]`, keyword arguments), `render` (same), `macro`, `call`; `ast.py` `Node.render`:
   `DisabledTagError` when the tag is in `context.disabled_tags`.
 
+* `extra/tags/extends_tag.py`: `extends` (`_build_block_stacks`: the template's own blocks, then every parent's, the base
+  template rendered in the same context, `extends.clear()`, `StopRender`) and `block` (no overriding definition: `extend`;
+  otherwise `copy(block_scope=True)`: globals = `{"block": …}` ▹ the parent's whole scope, `_isolated_globals` inherited,
+  `disabled_tags` inherited); `builtin/tags/tablerow_tag.py` without `cols`.  `block.super` and `required` are not
+  modelled (C18 owns block resolution); a `StopRender` is the flag `St.stopped`.
+* `Frame.sz` is asserted to be `scope.size()` at every `extend`: a mismatch is the model error `Err.sizeMismatch`, which
+  the driver reports and no stream has ever produced (the theorem that it is unreachable is not done yet).
+
 STRICT mode: the first error aborts the render.  Filters, `limit/offset/reversed`, `break/continue`, autoescape
 and the loop-iteration / namespace / output limits are not in this model (C06, C07, C12, C13, C25 own them).
 Core Lean only (the driver links this file).
@@ -46,6 +54,7 @@ inductive Val where
   | dict (kvs : List (String × Val))      -- insertion order, unique `str` keys
   | undef                                  -- `env.undefined(...)`
   | clock (today : Bool)                   -- what `builtin["now"]` / `builtin["today"]` return
+  | drop                                   -- a `BlockDrop` (the `block` variable inside `{% block %}`); never read by the generators
 
 abbrev NS := List (String × Val)
 
@@ -166,6 +175,9 @@ inductive Err where
   | notFound         -- TemplateNotFoundError
   | disabledTag      -- DisabledTagError
   | undefined        -- UndefinedError (StrictUndefined only)
+  | inheritance      -- TemplateInheritanceError (two extends tags, duplicate block names, circular extends)
+  | assertion        -- AssertionError (`assert base`: an extends tag rendered while `context.template` has none)
+  | sizeMismatch     -- MODEL ASSERTION: `Frame.sz` ≠ `scope.size()` at an `extend` (never observed; see the header)
   deriving Repr, DecidableEq
 
 /-- `ReadOnlyChainMap.__getitem__` -/
@@ -268,6 +280,7 @@ def pyRepr : Val → String
   | .dict kvs => "{" ++ joinSep ", " (pyReprKvs kvs) ++ "}"
   | .undef => "Undefined"
   | .clock today => if today then "2001-02-03" else "2001-02-03 04:05:06.000007"    -- the harness freezes the clock
+  | .drop => "BlockDrop"
 def pyReprs : List Val → List String
   | [] => []
   | v :: vs => pyRepr v :: pyReprs vs
@@ -317,6 +330,12 @@ inductive Node where
   | render (name : String) (bind : Option (Bool × Expr × Option String)) (args : List (String × Expr))
   | macroDef (name : String) (params : List (String × Option Expr)) (body : List Node)
   | call (name : String) (pos : List Expr) (kw : List (String × Expr))
+  /-- `{% block name %}…{% endblock %}` (`required` is not modelled) -/
+  | block (name : String) (body : List Node)
+  /-- `{% extends 'name' %}` -/
+  | extends (name : String)
+  /-- `{% tablerow var in it %}` without `cols`, `limit`, `offset` -/
+  | tablerow (var : String) (it : Expr) (body : List Node)
 
 structure Macro where
   params : List (String × Option Expr)      -- `macro.args`, a dict
@@ -335,6 +354,8 @@ structure St where
   locals : NS
   counters : List (String × Int)
   macros : List (String × Macro)            -- `tag_namespace["macros"]`
+  stacks : List (String × List (List Node)) -- `tag_namespace["extends"]`: per block name, the definitions, most derived first
+  stopped : Bool                            -- a `StopRender` is propagating (raised by `extends`)
 
 /-- the part of a `RenderContext` fixed at construction, and the size of its chain -/
 structure Frame where
@@ -342,6 +363,8 @@ structure Frame where
   copyDepth : Nat                           -- `_copy_depth`
   noInclude : Bool                          -- `"include" in disabled_tags`
   sz : Nat                                  -- `scope.size()`
+  iso : List NS                             -- `_isolated_globals`: what an isolated copy starts from
+  tnodes : List Node                        -- the nodes of `context.template`
 
 def view (G : Frame) (st : St) : View := { chain := st.pushed ++ st.locals :: G.globals, counters := st.counters }
 
@@ -445,18 +468,32 @@ def callNamespace (E : Env) (G : Frame) (st : St) (m : Macro) (pos : List Expr) 
       | .ok ps => .ok (dictMerge [("args", .list exArgs), ("kwargs", .dict exKw)] ps)
 
 /-- the context `RenderContext.copy(namespace, disabled_tags=[include…])` returns: its frame … -/
-def Frame.copied (G : Frame) (ns : NS) : Frame :=
-  { globals := ns :: G.globals, copyDepth := G.copyDepth + 1, noInclude := true, sz := 4 }
+def Frame.copied (G : Frame) (ns : NS) (tn : List Node) : Frame :=
+  { globals := ns :: G.iso, copyDepth := G.copyDepth + 1, noInclude := true, sz := 4, iso := ns :: G.iso, tnodes := tn }
+
+/-- `BuiltIn` and a `counters` dict as the mappings they are -/
+def builtinNS : NS := [("now", .clock false), ("today", .clock true)]
+def countersNS (cs : List (String × Int)) : NS := cs.map fun p => (p.1, Val.int p.2)
+
+/-- the caller's whole `scope` chain, as `copy(block_scope=True)` puts it behind the namespace -/
+def scopeChain (G : Frame) (pushed : List NS) (locals : NS) (counters : List (String × Int)) : List NS :=
+  pushed ++ locals :: G.globals ++ [builtinNS, countersNS counters]
+
+/-- `RenderContext.copy(namespace, block_scope=True, disabled_tags=context.disabled_tags)`: globals = namespace ▹ the
+parent's scope, `_isolated_globals` inherited -/
+def Frame.blockCopied (G : Frame) (pushed : List NS) (locals : NS) (counters : List (String × Int)) : Frame :=
+  { globals := [("block", Val.drop)] :: scopeChain G pushed locals counters, copyDepth := G.copyDepth + 1,
+    noInclude := G.noInclude, sz := 4, iso := G.iso, tnodes := G.tnodes }
 
 /-- … and its (empty) state -/
-def St.fresh : St := { pushed := [], loops := [], locals := [], counters := [], macros := [] }
+def St.fresh : St := { pushed := [], loops := [], locals := [], counters := [], macros := [], stacks := [], stopped := false }
 
 abbrev Res := Except Err (St × String)
 
 /-- `self.counters.get(name, 0)` -/
 def counterGet (cs : List (String × Int)) (n : String) : Int := (dictGet cs n).getD 0
 
-/-- `finally: self.scope.pop()` on the way out of `extend` (an error propagates) -/
+/-- `finally: self.scope.pop()` on the way out of `extend` (an error propagates; so does a `StopRender`, as the flag) -/
 def popRes (r : Res) : Res :=
   match r with
   | .error x => .error x
@@ -468,11 +505,133 @@ def popLoopRes (r : Res) : Res :=
   | .error x => .error x
   | .ok (st, o) => .ok ({ st with pushed := st.pushed.tail, loops := st.loops.tail }, o)
 
+/-- the way out of `render_with_context`: `extend`'s pop, and `except StopRender: break` -/
+def popCatchRes (r : Res) : Res :=
+  match r with
+  | .error x => .error x
+  | .ok (st, o) => .ok ({ st with pushed := st.pushed.tail, stopped := false }, o)
+
+/-- the way out of `ExtendsNode.render_to_output` after the base template was rendered: `render_with_context`'s pop,
+`tag_namespace["extends"].clear()`, `raise StopRender` -/
+def extendsRes (r : Res) : Res :=
+  match r with
+  | .error x => .error x
+  | .ok (st, o) => .ok ({ st with pushed := st.pushed.tail, stacks := [], stopped := true }, o)
+
+/-- the way out of `tablerow`: the closing `</tr>` is written unless an exception is passing through -/
+def rowRes (r : Res) : Res :=
+  match r with
+  | .error x => .error x
+  | .ok (st, o) =>
+    .ok ({ st with pushed := st.pushed.tail }, "<tr class=\"row1\">\n" ++ o ++ (if st.stopped then "" else "</tr>\n"))
+
 /-- a copied context is thrown away after use: the caller's state `st` is what it was -/
 def keepRes (st : St) (r : Res) : Res :=
   match r with
   | .error x => .error x
   | .ok (_, o) => .ok (st, o)
+
+/-- the same where nothing catches a `StopRender` on the way (macro call, overriding block): it reaches the caller -/
+def keepStopRes (st : St) (r : Res) : Res :=
+  match r with
+  | .error x => .error x
+  | .ok (st1, o) => .ok ({ st with stopped := st1.stopped }, o)
+
+/-- `G.sz` is `scope.size()` — asserted at every `extend` -/
+def sizeBad (G : Frame) (st : St) : Bool := G.sz != 4 + st.pushed.length
+
+/-! ### Template inheritance: what `_build_block_stacks` collects (`liquid/extra/tags/extends_tag.py`) -/
+
+mutual
+/-- `_find_inheritance_nodes`: the `extends` tags of a template, through `Node.children(include_partials=False)` -/
+def findExt : Node → List String
+  | .extends n => [n]
+  | .capture _ b => findExtL b
+  | .ifB _ b e => findExtL b ++ findExtL e
+  | .forB _ _ _ b e => findExtL b ++ findExtL e
+  | .withB _ b => findExtL b
+  | .macroDef _ _ b => findExtL b
+  | .block _ b => findExtL b
+  | .tablerow _ _ b => findExtL b
+  | _ => []
+def findExtL : List Node → List String
+  | [] => []
+  | n :: ns => findExt n ++ findExtL ns
+end
+
+mutual
+/-- … and its `block` tags, outer before inner, in source order -/
+def findBlocks : Node → List (String × List Node)
+  | .block n b => (n, b) :: findBlocksL b
+  | .capture _ b => findBlocksL b
+  | .ifB _ b e => findBlocksL b ++ findBlocksL e
+  | .forB _ _ _ b e => findBlocksL b ++ findBlocksL e
+  | .withB _ b => findBlocksL b
+  | .macroDef _ _ b => findBlocksL b
+  | .tablerow _ _ b => findBlocksL b
+  | _ => []
+def findBlocksL : List Node → List (String × List Node)
+  | [] => []
+  | n :: ns => findBlocks n ++ findBlocksL ns
+end
+
+abbrev Stacks := List (String × List (List Node))
+
+def hasDup : List String → Bool
+  | [] => false
+  | x :: r => r.contains x || hasDup r
+
+/-- `_store_blocks`: `block_stacks[block.name].append(item)` -/
+def storeBlocks (stacks : Stacks) : List (String × List Node) → Stacks
+  | [] => stacks
+  | (n, b) :: r => storeBlocks (dictSet stacks n ((dictGet stacks n).getD [] ++ [b])) r
+
+/-- `_stack_blocks(context, template)`: the name the template extends (if any) and the stacks with its blocks pushed -/
+def stackBlocks (nodes : List Node) (stacks : Stacks) : Except Err (Option String × Stacks) :=
+  if (findExtL nodes).length > 1 then .error .inheritance
+  else if hasDup ((findBlocksL nodes).map (·.1)) then .error .inheritance
+  else .ok ((findExtL nodes).head?, storeBlocks stacks (findBlocksL nodes))
+
+def eraseKey {α} (l : List (String × α)) (k : String) : List (String × α) := l.filter fun p => p.1 != k
+
+theorem length_eraseKey_lt {α} (l : List (String × α)) (k : String) (v : α) (h : dictGet l k = some v) :
+    (eraseKey l k).length < l.length := by
+  induction l with
+  | nil => simp [dictGet] at h
+  | cons p r ih =>
+    obtain ⟨a, b⟩ := p
+    by_cases hk : a = k
+    · subst hk
+      have : (eraseKey r a).length ≤ r.length := List.length_filter_le _ _
+      simp only [eraseKey, List.filter_cons, bne_self_eq_false, Bool.false_eq_true, if_false, List.length_cons] at *
+      omega
+    · simp only [dictGet, hk, if_false] at h
+      have := ih h
+      have hne : (a != k) = true := by simpa using hk
+      simp only [eraseKey, List.filter_cons, hne, if_true, List.length_cons] at *
+      omega
+
+/-- the loop of `_build_block_stacks` from the first parent on: load the parent (`seen` guards against a cycle: a
+template already walked is no longer in `avail`), push its blocks, follow its own `extends`; the base template is the
+last one loaded -/
+def chainWalk (E : Env) (avail : List (String × List Node)) (name : String) (stacks : Stacks) :
+    Except Err (List Node × Stacks) :=
+  match h : dictGet avail name with
+  | none => if (dictGet E.templates name).isSome then .error .inheritance else .error .notFound
+  | some body =>
+    match stackBlocks body stacks with
+    | .error x => .error x
+    | .ok (none, stk) => .ok (body, stk)
+    | .ok (some nm, stk) => chainWalk E (eraseKey avail name) nm stk
+termination_by avail.length
+decreasing_by exact length_eraseKey_lt avail name body h
+
+/-- the `TableRow` drop at item `i` of `n` when `cols` is not given (`ncols = length`: one row) -/
+def rowDrop (n i : Nat) : Val :=
+  .dict [("length", .int n), ("index", .int (i + 1)), ("index0", .int i), ("rindex", .int ((n : Int) - i)),
+         ("rindex0", .int ((n : Int) - i - 1)), ("first", .bool (i == 0)), ("last", .bool ((i : Int) == (n : Int) - 1)),
+         ("col", .int (i + 1)), ("col0", .int i), ("col_first", .bool (i == 0)), ("col_last", .bool (i + 1 == n)),
+         ("row", .int 1)]
 
 mutual
 /-- `Node.render(context, buffer)` -/
@@ -492,7 +651,9 @@ def render (E : Env) (G : Frame) (st : St) : Node → Res
   | .capture n body =>
     (match renderList E G st body with
      | .error x => .error x
-     | .ok (st1, o) => .ok ({ st1 with locals := dictSet st1.locals n (.str o) }, ""))
+     | .ok (st1, o) =>
+       if st1.stopped then .ok (st1, "")          -- the exception passes `_assign`; the capture buffer is dropped
+       else .ok ({ st1 with locals := dictSet st1.locals n (.str o) }, ""))
   | .ifB c body els =>
     (match eval E G st c with
      | .error x => .error x
@@ -504,26 +665,35 @@ def render (E : Env) (G : Frame) (st : St) : Node → Res
      | .error x => .error x
      | .ok v =>
        if E.cfg.strictUndef && v.isUndef then .error .undefined else
-       let items := iterItems E.cfg v
-       if items.isEmpty then renderList E G st els else
-       let parent := st.loops.head?.getD .undef                          -- `context.parentloop()`
+       if (iterItems E.cfg v).isEmpty then renderList E G st els else
+       if sizeBad G st then .error .sizeMismatch else
        if _h : G.sz > E.depth then .error .contextDepth else
        -- `context.loop`: loops.append(forloop); scope.push({"forloop": forloop, var: None})
-       let st1 := { st with loops := forloopDrop label items.length 0 parent :: st.loops,
-                            pushed := dictSet [("forloop", forloopDrop label items.length 0 parent)] var .nil :: st.pushed }
-       popLoopRes (iterFor E { G with sz := G.sz + 1 } st1 var label items.length parent 0 items body))
+       popLoopRes (iterFor E { G with sz := G.sz + 1 }
+         { st with loops := forloopDrop label (iterItems E.cfg v).length 0 (st.loops.head?.getD .undef) :: st.loops,
+                   pushed := dictSet [("forloop", forloopDrop label (iterItems E.cfg v).length 0 (st.loops.head?.getD .undef))] var .nil :: st.pushed }
+         var label (iterItems E.cfg v).length (st.loops.head?.getD .undef) 0 (iterItems E.cfg v) body))
+  | .tablerow var it body =>
+    (match eval E G st it with
+     | .error x => .error x
+     | .ok v =>
+       if E.cfg.strictUndef && v.isUndef then .error .undefined else
+       if sizeBad G st then .error .sizeMismatch else
+       if _h : G.sz > E.depth then .error .contextDepth else
+       rowRes (iterRow E { G with sz := G.sz + 1 }
+         { st with pushed := [("tablerowloop", rowDrop (iterItems E.cfg v).length 0)] :: st.pushed }
+         var (iterItems E.cfg v).length 0 (iterItems E.cfg v) body))
   | .withB args body =>
     (match evalArgs E G st args with
      | .error x => .error x
      | .ok ns =>
+       if sizeBad G st then .error .sizeMismatch else
        if _h : G.sz > E.depth then .error .contextDepth else
        popRes (renderList E { G with sz := G.sz + 1 } { st with pushed := dictOf ns :: st.pushed } body))
   | .incr n =>
-    let v := counterGet st.counters n
-    .ok ({ st with counters := dictSet st.counters n (v + 1) }, toString v)
+    .ok ({ st with counters := dictSet st.counters n (counterGet st.counters n + 1) }, toString (counterGet st.counters n))
   | .decr n =>
-    let v := counterGet st.counters n - 1
-    .ok ({ st with counters := dictSet st.counters n v }, toString v)
+    .ok ({ st with counters := dictSet st.counters n (counterGet st.counters n - 1) }, toString (counterGet st.counters n - 1))
   | .include name bind args =>
     if G.noInclude then .error .disabledTag else
     (match lookupT E.templates name with
@@ -532,22 +702,25 @@ def render (E : Env) (G : Frame) (st : St) : Node → Res
        match evalArgs E G st args with
        | .error x => .error x
        | .ok ns =>
+         if sizeBad G st then .error .sizeMismatch else
          if _h : G.sz > E.depth then .error .contextDepth else
-         let G1 := { G with sz := G.sz + 1 }
-         let st1 := { st with pushed := dictOf ns :: st.pushed }
+         -- `context.extend(namespace, template=template)`
          popRes
            (match bind with
-           | none => renderPartial E G1 st1 body
+           | none => renderPartial E { G with sz := G.sz + 1, tnodes := body } { st with pushed := dictOf ns :: st.pushed } body
            | some (e, alias) =>
-             match eval E G1 st1 e with
+             match eval E { G with sz := G.sz + 1, tnodes := body } { st with pushed := dictOf ns :: st.pushed } e with
              | .error x => .error x
              | .ok v =>
                -- `isinstance(val, (tuple, list, IterableDrop))`: the ABC test reads `val.__class__`, which a StrictUndefined refuses
                if E.cfg.strictUndef && v.isUndef then .error .undefined else
                match arrayLike v with
-               | some items => iterInc E G1 st1 (bindKey name alias) items body
+               | some items =>
+                 iterInc E { G with sz := G.sz + 1, tnodes := body } { st with pushed := dictOf ns :: st.pushed }
+                   (bindKey name alias) items body
                | none =>
-                 renderPartial E G1 { st1 with pushed := dictSet (dictOf ns) (bindKey name alias) v :: st.pushed } body))
+                 renderPartial E { G with sz := G.sz + 1, tnodes := body }
+                   { st with pushed := dictSet (dictOf ns) (bindKey name alias) v :: st.pushed } body))
   | .render name bind args =>
     (match lookupT E.templates name with
      | none => .error .notFound
@@ -559,7 +732,7 @@ def render (E : Env) (G : Frame) (st : St) : Node → Res
          -- the copied context is thrown away: the caller's state is what it was
          keepRes st
            (match bind with
-           | none => renderPartial E (G.copied (dictOf ns)) St.fresh body
+           | none => renderPartial E (G.copied (dictOf ns) body) St.fresh body
            | some (loop, e, alias) =>
              match eval E G st e with
              | .error x => .error x
@@ -567,8 +740,8 @@ def render (E : Env) (G : Frame) (st : St) : Node → Res
                if loop && E.cfg.strictUndef && v.isUndef then .error .undefined else      -- `self.loop and isinstance(val, …)`
                match (if loop then arrayLike v else none) with
                | some items =>
-                 iterRen E (G.copied (dictOf ns)) St.fresh (bindKey name alias) items.length (dictOf ns) G.globals 0 items body
-               | none => renderPartial E (G.copied (dictSet (dictOf ns) (bindKey name alias) v)) St.fresh body))
+                 iterRen E (G.copied (dictOf ns) body) St.fresh (bindKey name alias) items.length (dictOf ns) G.iso 0 items body
+               | none => renderPartial E (G.copied (dictSet (dictOf ns) (bindKey name alias) v) body) St.fresh body))
   | .macroDef name params body =>
     .ok ({ st with macros := dictSet st.macros name { params := dictOf params, body := body } }, "")
   | .call name pos kw =>
@@ -579,27 +752,55 @@ def render (E : Env) (G : Frame) (st : St) : Node → Res
        | .error x => .error x
        | .ok ns =>
          if _h : G.copyDepth > E.depth then .error .contextDepth else
-         keepRes st (renderList E (G.copied ns) St.fresh m.body))
+         keepStopRes st (renderList E (G.copied ns G.tnodes) St.fresh m.body))
+  | .block name body =>
+    (match dictGet st.stacks name with
+     | some (item :: _) =>
+       -- an overriding definition: `context.copy(namespace={"block": …}, block_scope=True, disabled_tags=…)`
+       if _h : G.copyDepth > E.depth then .error .contextDepth else
+       keepStopRes st (renderList E (G.blockCopied st.pushed st.locals st.counters) { St.fresh with stacks := st.stacks } item)
+     | _ =>
+       -- the base template rendered directly: `with context.extend({"block": BlockDrop(…)})`
+       if sizeBad G st then .error .sizeMismatch else
+       if _h : G.sz > E.depth then .error .contextDepth else
+       popRes (renderList E { G with sz := G.sz + 1 } { st with pushed := [("block", Val.drop)] :: st.pushed } body))
+  | .extends _ =>
+    -- `_build_block_stacks(context, context.template, "extends")`
+    (match stackBlocks G.tnodes st.stacks with
+     | .error x => .error x
+     | .ok (none, _) => .error .assertion
+     | .ok (some nm, stk) =>
+       match chainWalk E E.templates nm stk with
+       | .error x => .error x
+       | .ok (base, stk') =>
+         -- `base_template.render_with_context(context, buffer)`; `extends.clear()`; `raise StopRender`
+         if sizeBad G st then .error .sizeMismatch else
+         if _h : G.sz > E.depth then .error .contextDepth else
+         extendsRes (renderList E { G with sz := G.sz + 1 }
+           { st with stacks := stk', pushed := [("partial", .bool false)] :: st.pushed } base))
 termination_by n => (E.depth + 2 - G.copyDepth, E.depth + 2 - G.sz, sizeOf n, 0)
-decreasing_by all_goals (simp_wf; simp only [Prod.lex_def, Frame.copied, true_and]; omega)
+decreasing_by all_goals (simp_wf; simp only [Prod.lex_def, Frame.copied, Frame.blockCopied, true_and]; omega)
 
-/-- a block: `for node in nodes: node.render(context, buffer)` -/
+/-- a block: `for node in nodes: node.render(context, buffer)`; a `StopRender` ends it -/
 def renderList (E : Env) (G : Frame) (st : St) : List Node → Res
   | [] => .ok (st, "")
   | n :: ns =>
     match render E G st n with
     | .error x => .error x
     | .ok (st1, o1) =>
+      if st1.stopped then .ok (st1, o1) else
       match renderList E G st1 ns with
       | .error x => .error x
       | .ok (st2, o2) => .ok (st2, o1 ++ o2)
 termination_by ns => (E.depth + 2 - G.copyDepth, E.depth + 2 - G.sz, sizeOf ns, 0)
 decreasing_by all_goals (simp_wf; simp only [Prod.lex_def, true_and]; omega)
 
-/-- `template.render_with_context(context, buffer, partial=True)`: `extend({"partial": True})`, then the nodes -/
+/-- `template.render_with_context(context, buffer, partial=True)`: `extend({"partial": True})`, then the nodes;
+`StopRender` is caught here -/
 def renderPartial (E : Env) (G : Frame) (st : St) (body : List Node) : Res :=
+  if sizeBad G st then .error .sizeMismatch else
   if _h : G.sz > E.depth then .error .contextDepth else
-  popRes (renderList E { G with sz := G.sz + 1 } { st with pushed := [("partial", .bool true)] :: st.pushed } body)
+  popCatchRes (renderList E { G with sz := G.sz + 1 } { st with pushed := [("partial", .bool true)] :: st.pushed } body)
 termination_by (E.depth + 2 - G.copyDepth, E.depth + 2 - G.sz, sizeOf body + 1, 0)
 decreasing_by all_goals (simp_wf; simp only [Prod.lex_def, true_and]; omega)
 
@@ -609,14 +810,29 @@ def iterFor (E : Env) (G : Frame) (st : St) (var label : String) (n : Nat) (pare
     List Val → List Node → Res
   | [], _ => .ok (st, "")
   | itm :: rest, body =>
-    let drop := forloopDrop label n i parent
-    match renderList E G { st with pushed := dictSet [("forloop", drop)] var itm :: st.pushed.tail,
-                                   loops := drop :: st.loops.tail } body with
+    match renderList E G { st with pushed := dictSet [("forloop", forloopDrop label n i parent)] var itm :: st.pushed.tail,
+                                   loops := forloopDrop label n i parent :: st.loops.tail } body with
     | .error x => .error x
     | .ok (st1, o1) =>
+      if st1.stopped then .ok (st1, o1) else
       match iterFor E G st1 var label n parent (i + 1) rest body with
       | .error x => .error x
       | .ok (st2, o2) => .ok (st2, o1 ++ o2)
+termination_by items body => (E.depth + 2 - G.copyDepth, E.depth + 2 - G.sz, sizeOf body + 1, items.length + 1)
+decreasing_by all_goals (simp_wf; simp only [Prod.lex_def, true_and]; omega)
+
+/-- the cells of a `tablerow` from item `i` on: `namespace[var] = item` on the namespace `tablerow` pushed, the drop
+steps, `<td class="col…">`, the block, `</td>` (not written when an exception passes) -/
+def iterRow (E : Env) (G : Frame) (st : St) (var : String) (n : Nat) (i : Nat) : List Val → List Node → Res
+  | [], _ => .ok (st, "")
+  | itm :: rest, body =>
+    match renderList E G { st with pushed := dictSet [("tablerowloop", rowDrop n i)] var itm :: st.pushed.tail } body with
+    | .error x => .error x
+    | .ok (st1, o1) =>
+      if st1.stopped then .ok (st1, "<td class=\"col" ++ toString (i + 1) ++ "\">" ++ o1) else
+      match iterRow E G st1 var n (i + 1) rest body with
+      | .error x => .error x
+      | .ok (st2, o2) => .ok (st2, "<td class=\"col" ++ toString (i + 1) ++ "\">" ++ o1 ++ "</td>" ++ o2)
 termination_by items body => (E.depth + 2 - G.copyDepth, E.depth + 2 - G.sz, sizeOf body + 1, items.length + 1)
 decreasing_by all_goals (simp_wf; simp only [Prod.lex_def, true_and]; omega)
 
@@ -634,13 +850,13 @@ termination_by items body => (E.depth + 2 - G.copyDepth, E.depth + 2 - G.sz, siz
 decreasing_by all_goals (simp_wf; simp only [Prod.lex_def, true_and]; omega)
 
 /-- `render … for`: `args["forloop"] = forloop; args[key] = itm` in the namespace in front of the copied context's
-globals (`pg` = the caller's globals); the copied context's state is threaded through the iterations -/
+globals (`pg` = the caller's isolated globals); the copied context's state is threaded through the iterations -/
 def iterRen (E : Env) (G : Frame) (st : St) (key : String) (n : Nat) (args : NS) (pg : List NS) (i : Nat) :
     List Val → List Node → Res
   | [], _ => .ok (st, "")
   | itm :: rest, body =>
-    let ns := dictSet (dictSet args "forloop" (forloopDrop key n i .undef)) key itm
-    match renderPartial E { G with globals := ns :: pg } st body with
+    match renderPartial E { G with globals := dictSet (dictSet args "forloop" (forloopDrop key n i .undef)) key itm :: pg,
+                                   iso := dictSet (dictSet args "forloop" (forloopDrop key n i .undef)) key itm :: pg } st body with
     | .error x => .error x
     | .ok (st1, o1) =>
       match iterRen E G st1 key n args pg (i + 1) rest body with
@@ -654,9 +870,14 @@ end
 def topGlobals (renderArgs matter tglobals eglobals : NS) : List NS :=
   [renderArgs, matter, dictMerge eglobals tglobals]
 
+/-- the context `BoundTemplate.render(**render_args)` creates -/
+def topFrame (renderArgs matter tglobals eglobals : NS) (nodes : List Node) : Frame :=
+  { globals := topGlobals renderArgs matter tglobals eglobals, copyDepth := 0, noInclude := false, sz := 4,
+    iso := topGlobals renderArgs matter tglobals eglobals, tnodes := nodes }
+
 /-- `BoundTemplate.render(**render_args)`: a new context, then `render_with_context` (not a partial) -/
 def renderTemplate (E : Env) (renderArgs matter tglobals eglobals : NS) (nodes : List Node) : Except Err String :=
-  let G : Frame := { globals := topGlobals renderArgs matter tglobals eglobals, copyDepth := 0, noInclude := false, sz := 4 }
+  let G := topFrame renderArgs matter tglobals eglobals nodes
   if G.sz > E.depth then .error .contextDepth else
   match renderList E { G with sz := G.sz + 1 } { St.fresh with pushed := [[("partial", .bool false)]] } nodes with
   | .error x => .error x
